@@ -31,7 +31,7 @@ def main():
             for c in checks:
                 out = tempfile.mkdtemp(prefix='seedout-', dir='/var/tmp')
                 env = dict(os.environ, VERIF_REPO=wt, VERIF_EVIDENCE_DIR=out + '/evidence', VERIF_REPLAY_DIR=out + '/replay')
-                r = subprocess.run(['timeout', '1500', '/verif/run', c, '--tier', 'quick'], stdout=subprocess.PIPE, stderr=subprocess.STDOUT, text=True, env=env)
+                r = subprocess.run(['timeout', '1500', os.environ.get('VERIF_HOME', '/verif') + '/run', c, '--tier', 'quick'], stdout=subprocess.PIPE, stderr=subprocess.STDOUT, text=True, env=env)
                 lines = r.stdout.splitlines()
                 nv = sum(1 for l in lines if l.startswith('VIOLATION'))
                 sig = [l.strip() for l in lines if 'signature:' in l][:2]
